@@ -7,7 +7,7 @@ from ..hooks import Patches
 PID = "C02"
 LEVEL = "exploration"
 RULE = ("populations from templates (grid ties, duplicates, chains, antichains, layered fronts, mixed feasibility), each "
-        "sorted in several shuffled orders, all tiny populations over {0,1,2}^2 x {feasible,infeasible} in every order, "
+        "sorted in several shuffled orders (40 % of them mixing Individual subclasses), all tiny populations over {0,1,2}^2 x {feasible,infeasible} in every order, "
         "and every population sorted inside NSGA-II/OMOPSO runs; non-trivial = at least two fronts or a duplicated cost "
         "vector; distinct = distinct ordered list of cost vectors")
 ASSUMPTIONS = ["each object appears once per list (unique ids), as in real use"]
@@ -15,11 +15,22 @@ SHARDS = {"quick": 1, "thorough": 16}
 WATCHDOG = {"quick": 900, "thorough": 3000}
 
 
-def _mk(costs):
+def _mk(costs, r=None):
+    """r given: some populations mix the library's Individual classes (an archive member next to a swarm particle, a restored
+    plain Individual next to NSGA-II offspring): every freshly constructed object is a distinct individual, whatever its class"""
     from artap.individual import Individual
+    classes = [Individual]
+    if r is not None and r.random() < 0.4:
+        from artap.algorithm_NSGAII import IndividualNSGAII
+        from artap.algorithm_genetic import IndividualEpsMOEA
+        from artap.algorithm_swarm import IndividualSwarm
+
+        class UserIndividual(Individual):
+            pass
+        classes = r.sample([Individual, IndividualNSGAII, IndividualEpsMOEA, IndividualSwarm, UserIndividual], r.randint(2, 5))
     out = []
     for c in costs:
-        ind = Individual([0.0])
+        ind = (classes[0] if len(classes) == 1 else r.choice(classes))([0.0])
         ind.costs_signed = list(c)
         out.append(ind)
     return out
@@ -99,7 +110,9 @@ def run_case(ctx, name, params):
             order = list(range(len(costs)))
             r.shuffle(order)
             cs = [costs[k] for k in order]
-            inds = _mk(cs)
+            inds = _mk(cs, r)
+            if len({type(i) for i in inds}) > 1:
+                ctx.count("populations_mixing_individual_classes")
             sel.fast_nondominated_sorting(inds)
             got = judge(ctx, cs, inds, "generated")
             # rank per cost vector must not depend on order
